@@ -343,6 +343,7 @@ def run(ctx):
     generated_model(ctx, reqs, impl_outs, metas)
     needle(ctx)
     marathon(ctx)
+    absorbed(ctx)
 
 
 def generated_model(ctx, reqs, impl_outs, metas):
@@ -433,3 +434,60 @@ def marathon(ctx):
                 break
         if bad:
             ctx.violation("_ListDict_ long history: " + bad, dict(rep, failure=bad))
+
+
+def absorbed(ctx):
+    """weights spanning 15+ orders of magnitude that are NOT powers of two: the running total absorbs the light weights
+    while a heavy candidate is present and carries a rounding residue after it has gone (the sampler must not rely on the
+    running total being the exact sum).  Nothing about totals is checked here; what is checked has probability 0 under
+    weight-proportional selection whatever the rounding: a candidate of weight 0 is never returned, and the only candidate
+    of positive weight is always returned.  Real seeded draws."""
+    import random as _r, EoN.simulation as sim
+    for k in range(ctx.scale(250, 1000)):
+        r = ctx.rng
+        heavy_w = r.choice([1e16, 1e17, 3e18])
+        lights = [float(r.choice([1, 2, 3, 5, 10, 0.5])) for _ in range(r.randint(1, 4))]
+        nzero = r.randint(1, 4)
+        seed = r.randrange(10 ** 9)
+        ld = sim._ListDict_(weighted=True)
+        order = [("heavy", 0)] + [("light", i) for i in range(len(lights))] + [("zero", i) for i in range(nzero)]
+        r.shuffle(order)
+        if order.index(("heavy", 0)) > 1:
+            order.remove(("heavy", 0)); order.insert(r.randint(0, 1), ("heavy", 0))      # the heavy one is present while lights arrive
+        oracle = {}
+        for it in order:
+            if it[0] == "heavy":
+                ld.insert(it, weight=heavy_w); oracle[it] = heavy_w
+            elif it[0] == "light":
+                if r.random() < 0.5:
+                    ld.insert(it, weight=lights[it[1]])
+                else:
+                    ld.update(it, weight_increment=lights[it[1]] / 2); ld.update(it, weight_increment=lights[it[1]] / 2)
+                oracle[it] = lights[it[1]]
+            else:
+                ld.update(it, weight_increment=0); oracle[it] = 0.0
+        how = r.choice(["remove", "replace"])
+        if how == "remove":
+            ld.remove(("heavy", 0)); del oracle[("heavy", 0)]
+        else:
+            w = float(r.choice([1, 2]))
+            ld.insert(("heavy", 0), weight=w); oracle[("heavy", 0)] = w
+        rep = dict(entry="_ListDict_", stream="absorbed", heavy=heavy_w, lights=lights, zero_weight_items=nzero, how=how, order=[list(x) for x in order], seed=seed)
+        ctx.case(rep, nontrivial=True)
+        ctx.count("absorbed:" + how)
+        old = sim.random
+        sim.random = _r.Random(seed)
+        picks = {}
+        try:
+            for _ in range(120):
+                c = ld.choose_random()
+                picks[c] = picks.get(c, 0) + 1
+        except Exception as e:
+            ctx.violation("choose_random raised %s after a heavy candidate (%g) was %sd" % (type(e).__name__, heavy_w, how), rep)
+            continue
+        finally:
+            sim.random = old
+        dead = {repr(c): n for c, n in picks.items() if oracle.get(c, 0.0) == 0.0}
+        if dead:
+            ctx.violation("choose_random returned candidates of weight 0 (%s of 120 picks) after a heavy candidate (%g) had been present"
+                          % (sum(dead.values()), heavy_w), dict(rep, zero_weight_picks=dead, weights={repr(k_): v for k_, v in oracle.items()}))
